@@ -958,6 +958,18 @@ class TextXVisitor(RRELVisitor):
         target_cls = None
         obj_ref_rule = None
 
+        if attr_name == "parent":
+            # `parent` is set by textX on every contained object. A grammar
+            # attribute of that name would be overwritten by that link (or
+            # be taken for it by get_model/get_children).
+            line, col = self.grammar_parser.pos_to_linecol(node.position)
+            raise TextXSemanticError(
+                f'"parent" is a reserved attribute name (rule "{cls.__name__}")'
+                f" at {(line, col)}.",
+                line,
+                col,
+            )
+
         if self.debug:
             self.dprint(f"Processing assignment {attr_name}{op}...")
 
